@@ -666,15 +666,12 @@ def source_specs(kind, tier, abc_):
             ("cold-error", False, [(10, "N", B), (20, "N", A), (30, "E", "src")]),
             ("cold-empty", False, [(10, "C", None)]),
             ("hot-many", True, [(150, "N", C), (205, "N", A), (215, "N", A), (230, "N", B), (260, "N", C), (300, "C", None)]),
+            ("cold-sync", False, [(None, "N", A), (None, "N", B), (None, "N", C), (None, "C", None)]),
+            ("cold-never", False, [(10, "N", A), (20, "N", B)]),
+            ("cold-burst", False, [(10, "N", A), (10, "N", B), (10, "N", C), (20, "C", None)]),
+            ("cold-one", False, [(10, "N", C), (20, "C", None)]),
+            ("hot-error", True, [(205, "N", B), (215, "N", C), (240, "E", "src")]),
         ]
-        if True:
-            specs += [
-                ("cold-sync", False, [(None, "N", A), (None, "N", B), (None, "N", C), (None, "C", None)]),
-                ("cold-never", False, [(10, "N", A), (20, "N", B)]),
-                ("cold-burst", False, [(10, "N", A), (10, "N", B), (10, "N", C), (20, "C", None)]),
-                ("cold-one", False, [(10, "N", C), (20, "C", None)]),
-                ("hot-error", True, [(205, "N", B), (215, "N", C), (240, "E", "src")]),
-            ]
         if thorough:
             # every timeline of <=3 elements over {A, B} ending in completion or error, cold and hot
             for i, tl in enumerate(vt.timelines(3, (A, B))):
@@ -957,6 +954,8 @@ def run(ctx: core.Ctx):
         "harness LoggedCold/LoggedHot sources are conforming",
         "parameter-name differences listed in RENAME/ALIAS are intended API (keyword bindings are translated)",
     ]
+    if ctx.tier == "quick":
+        ctx.workers = min(ctx.workers, 4)  # ~20 core-seconds of work: a wider fork pool costs more than it saves on a busy machine
     part = ctx.sharded(shard)
     counters = part.counters
     covered = sorted(k[2:] for k in counters if k.startswith("m:"))
